@@ -206,7 +206,16 @@ def _o_none(case):
     from pyrtcm.rtcmhelpers import parse_4076_201, parse_msm
 
     p = bytes.fromhex(case["payload"])
-    m = RTCMMessage(payload=p)
+    if case.get("lookalike"):
+        # a generic body under a chosen number: when the type is defined the body may not fit its definition
+        from pv.checks.c04 import lib_errors
+
+        try:
+            m = RTCMMessage(payload=p)
+        except lib_errors():
+            return Res(nontrivial=False, classes=["lookalike-body-does-not-fit-the-definition"])
+    else:
+        m = RTCMMessage(payload=p)
     ident = framing.ref_identity(p)
     r1 = parse_msm(m)
     r2 = parse_4076_201(m)
@@ -216,6 +225,8 @@ def _o_none(case):
         raise Fail("vtec-helper-on-other", f"{ident}: parse_4076_201 returned {type(r2).__name__}")
     n = framing.msgnum(p)
     cls = ["reserved-msm-number" if 1070 <= n <= 1229 else ("defined" if model.definition(ident) else "unknown")]
+    if case.get("lookalike"):
+        cls.append("subtype-201-bits-under-another-number")
     return Res(nontrivial=1070 <= n <= 1229, classes=cls, evals=2)
 
 
@@ -230,6 +241,27 @@ def e_none(tier, shard, nshards):
             if k % nshards != shard:
                 continue
             yield {"payload": (bytes([n >> 4, (n & 0xF) << 4]) + tail).hex(), "diag": bool(k & 1)}
+
+
+def e_lookalike(tier, shard, nshards):
+    """EVERY message number except 4076 with the bits that would be the IGS version and sub-type of a 4076 message
+    (payload bits 12..22) set to version 0..7, sub-type 201: the relation "this is a 4076_201 message" is between the
+    number AND the sub-type, never the sub-type alone (complete over numbers x versions; bodies of zeros and of ones)"""
+    k = 0
+    for n in range(4096):
+        if n == 4076 or (1070 <= n <= 1229):
+            continue
+        for v in range(8):
+            k += 1
+            if k % nshards != shard:
+                continue
+            head = (n << 12) | (v << 9) | (201 << 1) | (k & 1)
+            yield {"payload": (head.to_bytes(3, "big") + (bytes(80) if k & 2 else b"\xff" * 80)).hex(), "lookalike": True, "diag": False}
+
+
+def e_none_all(tier, shard, nshards):
+    yield from e_none(tier, shard, nshards)
+    yield from e_lookalike(tier, shard, nshards)
 
 
 def plan_none(tier, shard, nshards):
@@ -252,5 +284,5 @@ def _short(c):
 SUBS = [
     Sub("msm_arrays", o_msm, plan=plan_msm, rule="NSat >= 2 and NCell >= 2", need={"nsat0": 1, "ncell0": 1, "ncell>=10": 1}, sample=_short),
     Sub("vtec_coefficients", o_vtec, strategy=s_vtec, examples=(30, 800), rule="> 99 coefficients in a layer or more than one layer", need={"coefficients>99": 1}, sample=_short),
-    Sub("helpers_return_none", o_none, plan=plan_none, enum=e_none, rule="number in 1070..1229 without definition", need={"reserved-msm-number": 1, "unknown": 1, "defined": 1}, sample=_short),
+    Sub("helpers_return_none", o_none, plan=plan_none, enum=e_none_all, rule="number in 1070..1229 without definition", need={"reserved-msm-number": 1, "unknown": 1, "defined": 1, "subtype-201-bits-under-another-number": 20000}, sample=_short),
 ]
